@@ -42,7 +42,7 @@ func c05Check(c stage.Cfg) func(o *obs.Obs) string {
 			}
 		}
 		switch c.Stage {
-		case "foreach":
+		case "foreach", "foreach-rep":
 			if calls := o.Strs("call"); !obs.Equal(calls, r.calls) {
 				return fmt.Sprintf("%s/visits|visited %v, want one visit per element in order %v", tag, calls, r.calls)
 			}
@@ -58,7 +58,7 @@ func c05Check(c stage.Cfg) func(o *obs.Obs) string {
 		if lb := o.LibBlocked(); len(lb) > 0 {
 			return fmt.Sprintf("%s/leak|outputs drained and closed but library goroutines remain: %v", tag, lb)
 		}
-		if c.Stage != "take" && c.Stage != "takewhile" && o.Sim {
+		if c.Stage != "take" && c.Stage != "takewhile" && c.Stage != "takewhile-alt" && o.Sim {
 			if eb := o.EnvBlocked(); len(eb) > 0 {
 				return fmt.Sprintf("%s/deadlock|environment threads blocked for ever: %v", tag, eb)
 			}
@@ -219,6 +219,23 @@ func c05Scenarios(tier string) []e1lib.Scenario {
 	}
 	for k := 0; k <= 3; k++ {
 		add(stage.Cfg{Stage: "fold100", K: k, Stop: -1, Stop2: -1})
+	}
+	// predicates with memory (true on the odd-numbered calls / on the first two calls) and inputs with runs of equal elements
+	// under a function that numbers its calls: the stage applies its function once per element, in input order
+	for k := 0; k <= 4; k++ {
+		for cp := 0; cp <= 1; cp++ {
+			for _, st := range []string{"filter-alt", "takewhile-alt", "partition-alt", "foreach-rep", "map-rep"} {
+				if k > 3 && (st == "foreach-rep" || st == "map-rep") {
+					continue
+				}
+				c := stage.Cfg{Stage: st, K: k, Cap: cp, Stop: -1, Stop2: -1, Mode: "pure", ErrRd: "reader"}
+				add(c)
+				if st == "partition-alt" && k >= 2 {
+					c.Late, c.LateAt = 300e9, 0 // one side has no room for a long while
+					add(c)
+				}
+			}
+		}
 	}
 	// deeply buffered inputs (the whole input fits into the channel): whatever a stage does for roomy channels, the
 	// list image is the same
